@@ -119,9 +119,11 @@ def check_case(ctx, case, enum=False, cache=None):
         elif entry == "sign_deterministic":
             digest = hf(payload).digest()
             extra = bytes.fromhex(nonce[1]) if nonce[0] == "rfc" else b""
-            sig = sk.sign_deterministic(as_type(payload, ptype), hashfunc=hf, sigencode=enc,
+            use_default = case.get("default_hash", False)
+            sig = sk.sign_deterministic(as_type(payload, ptype), hashfunc=None if use_default else hf, sigencode=enc,
                                         extra_entropy=as_type(extra, case.get("vtype", "bytes")))
-            ok = vk.verify(sig, as_type(payload, case.get("vtype", "bytes")), hashfunc=hf, sigdecode=dec)
+            ok = vk.verify(sig, as_type(payload, case.get("vtype", "bytes")), hashfunc=None if use_default else hf,
+                           sigdecode=dec)
         elif entry == "sign_digest_deterministic":
             digest = payload
             extra = bytes.fromhex(nonce[1]) if nonce[0] == "rfc" else b""
@@ -278,8 +280,14 @@ def sweep_cases(names, full):
             if entry in ("sign_digest", "sign_digest_deterministic"):
                 payload = gen.HASHES[hname](payload).digest()
             nonce = ["rfc", ""] if "deterministic" in entry else ["k", k]
+            # reload routes and "rely on the key's default hash" rotate systematically through the sweep
+            sroutes = SU.SK_ROUTES_ANY + SU.SK_ROUTES_NAMED
+            vroutes = SU.VK_ROUTES_ANY + SU.VK_ROUTES_NAMED
             yield {"curve": cname, "d": dd, "hash": hname, "enc": encname, "entry": entry,
-                   "payload": payload.hex(), "nonce": nonce, "at": True, "boundary": True}
+                   "payload": payload.hex(), "nonce": nonce, "at": True, "boundary": True,
+                   "sk_route": sroutes[(j // 3 + ci) % len(sroutes)], "vk_route": vroutes[(j // 5 + 2 * ci) % len(vroutes)],
+                   "vk_from_reloaded_sk": (j // 7) % 3 == 0, "default_hash": j % 2 == 0,
+                   "precompute": (None, "lazy", None, "eager")[(j // 2) % 4]}
 
 
 def units(tier, seed):
